@@ -36,6 +36,25 @@ func c16ErrStr(err error) string {
 	return "error(" + err.Error() + ")"
 }
 
+func err0(err error) string {
+	if err == nil {
+		return "ok"
+	}
+
+	return "error"
+}
+
+// normalised renders a view without attempt ids (they differ per store run).
+func (v *c16View) normalised() string {
+	c := *v
+	c.Atts = append([]c16Att{}, v.Atts...)
+	for i := range c.Atts {
+		c.Atts[i].ID = uint64(i)
+	}
+
+	return c.String()
+}
+
 func c16MustInit(db paymentsdb.DB, h lntypes.Hash, value int64) error {
 	return db.InitPayment(c16Ctx, h, c16Info(h, value))
 }
@@ -47,6 +66,17 @@ func c16FetchView(db paymentsdb.DB, h lntypes.Hash) (*c16View, error) {
 	}
 
 	return c16ViewOf(p), nil
+}
+
+func remaining(v *c16View) int64 {
+	r := v.Value
+	for _, a := range v.Atts {
+		if a.State != c16Failed {
+			r -= a.Amt
+		}
+	}
+
+	return r
 }
 
 // c16ForeignScenario: payment A (initiated, no attempts) and payment B with
@@ -86,15 +116,12 @@ func c16ForeignScenario(settle bool) func(s *c16Stores) (string, error) {
 			if ferr != nil {
 				return "", ferr
 			}
-			out[i] = fmt.Sprintf("%s; other payment afterwards %v",
-				c16ErrStr(err), vb)
+			verdict := "refused (" + err0(err) + ")"
 			if err == nil {
-				out[i] = "SUCCEEDS; other payment afterwards " +
-					vb.String()
-			} else {
-				out[i] = "refused; other payment afterwards " +
-					vb.String()
+				verdict = "SUCCEEDS"
 			}
+			out[i] = fmt.Sprintf("%s; payment B afterwards %v", verdict,
+				vb.normalised())
 		}
 		if out[0] == out[1] {
 			return "", nil
@@ -155,9 +182,15 @@ var c16Repros = []c16Repro{
 
 					return "refused"
 				}
-				out[i] = fmt.Sprintf("2nd id1: %s, id2(600): %s, "+
-					"%d attempts recorded for 1400 handed out",
-					r(err2), r(err3), len(v.Atts))
+				handed := 400 + 600
+				if err2 == nil {
+					handed += 400
+				}
+				out[i] = fmt.Sprintf("2nd Register(id1): %s, "+
+					"Register(id2,600): %s; %d msat handed out "+
+					"for a 1000 msat payment, store accounts "+
+					"for %d", r(err2), r(err3), handed,
+					v.Value-remaining(v))
 			}
 			if out[0] == out[1] {
 				return "", nil
